@@ -739,6 +739,31 @@ def check_setup(ctx, P, MV):
     o.check(bad is None, "direction table + list push", bad, site=we.loc, construct="wait_for_event registration")
 
 
+def check_table_size(ctx, P, MV):
+    o = ctx.ob("setup.size", "", "the per-descriptor tables and max_fd are sized by the hard RLIMIT_NOFILE limit (rlim_max), the largest value the soft "
+               "limit can be raised to while the process runs",
+               "sized by the soft limit, a later setrlimit lets the kernel hand out descriptors >= max_fd: setup_socket/pipe then write the flag "
+               "word out of bounds and should_block() treats the descriptor as unmanaged, so EAGAIN reaches a blocking-mode caller")
+    n, bad = 0, None
+    for fn in P.unique_functions():
+        for st in fn.stores():
+            if fn.target_key(st.target) != ("glob", "max_fd"):
+                continue
+            n += 1
+            v = strip(fn.resolve(st.value)) if st.value is not None else None
+            ok = v is not None and v.k == "MemberExpr" and v.field == "rlim_max" and not v.arrow
+            if ok:
+                base = strip(v.kids[0])
+                gl = [c for c in fn.calls("getrlimit") if any(strip(m).k == "DeclRefExpr" and strip(m).did == base.did for a in fn.args(c)[1:] for m in a.walk())]
+                ok = bool(gl) and all(fn.args(c)[0].cv == MV.get("RLIMIT_NOFILE", 7) for c in gl) and all(fn.dominated_by(st.node, nodeset([c])) is None for c in gl)
+            if not ok:
+                bad = bad or ("`%s` in %s does not take the hard descriptor limit" % (st.node.text, fn.name), st.node)
+    if n < 2:
+        raise AnalysisBroken("max_fd writers: %d found, 2 expected" % n)
+    o.check(bad is None, "%d writers of max_fd, all = getrlimit(RLIMIT_NOFILE).rlim_max" % n, bad[0] if bad else None, site=bad[1] if bad else None,
+            construct="descriptor table sized below the hard limit")
+
+
 def run(ctx):
     P = ctx.prog()
     MV = macro_values(P)
@@ -751,3 +776,4 @@ def run(ctx):
     check_fnptr(ctx, P)
     check_close_event(ctx, P, MV)
     check_setup(ctx, P, MV)
+    check_table_size(ctx, P, MV)
